@@ -1918,10 +1918,55 @@ def exports_faithful(tier: str = "quick", seed: int = 0, known: Any = None) -> D
     return res
 
 
+@standin("C18")
+def annotation_rendering(tier: str = "quick", seed: int = 0, known: Any = None) -> Dict[str, Any]:
+    """The block annotation of a context is `_repr_num_list(values)`.  Group indices lie in 0..15 and group sizes in 1..16, so the
+    subsets of {0..16} are the *whole* input space of the function as the printers use it: every one is rendered and read back."""
+    t0 = time.time()
+    from tealer.printers.transaction_context import PrinterTransactionContext
+    f = PrinterTransactionContext._repr_num_list          # pylint: disable=protected-access
+    first: Optional[Dict[str, Any]] = None
+    failures = 0
+    n = 0
+    for mask in range(1 << 17):
+        vals = [k for k in range(17) if mask >> k & 1]
+        n += 1
+        why = None
+        try:
+            s = f(list(reversed(vals)) if mask % 3 == 0 else list(vals))
+            toks = s.split()
+            if _expand_ranges(s) != set(vals):
+                why = f"denotes {sorted(_expand_ranges(s))}"
+            else:
+                firsts = [int(t.split("..")[0]) for t in toks]
+                if firsts != sorted(firsts) or any(".." in t and int(t.split("..")[1]) - int(t.split("..")[0]) < 3 for t in toks):
+                    why = "tokens out of order / a range shorter than 4 values"
+                elif sum(len(range(int(t.split("..")[0]), int(t.split("..")[1]) + 1)) if ".." in t else 1 for t in toks) != len(vals):
+                    why = "a value is shown twice"
+        except Exception as e:      # pylint: disable=broad-except
+            s, why = "", f"raised {type(e).__name__}: {e}"
+        if why:
+            failures += 1
+            if first is None or len(vals) < len(first["values"]):
+                first = {"property": "C18", "standin": "annotation_rendering (exhaustive over the printers' input space)", "class": "annotation-rendering-wrong",
+                         "values": vals, "rendered": s, "detail": f"_repr_num_list({vals}) = {s!r}: {why}"}
+    res: Dict[str, Any] = {
+        "summary": {"function": "tealer.printers.transaction_context.PrinterTransactionContext._repr_num_list",
+                    "contract": "the rendered text, read back (`a..b` = a, a+1, .., b), denotes exactly the set of values; tokens ascend, no value twice, "
+                                "`a..b` only for runs of at least 4 values",
+                    "bound": "all 131072 subsets of {0..16} (group indices are 0..15, group sizes 1..16: the whole input space of the annotations), "
+                             "every third one passed in descending order", "evaluations": n, "exhaustive": True, "failures": failures,
+                    "seconds": round(time.time() - t0, 1)},
+        "violations": [], "known_lines": []}
+    if first:
+        res["violations"].append({"file": "outputs_C18_annotation_rendering.json", "data": first})
+    return res
+
+
 if __name__ == "__main__":
     _oracle_unit_checks()
     _tier = sys.argv[1] if len(sys.argv) > 1 else "quick"
-    for _fn in (cli_completes, exports_faithful):
+    for _fn in (cli_completes, exports_faithful, annotation_rendering):
         _r = _fn(_tier, 0, None)
         print(f"==== {_fn.__name__} ({_tier})")
         print(json.dumps(_r["summary"], indent=1))
